@@ -30,8 +30,10 @@ def le32 : List Nat → Option (Nat × List Nat)
   | a :: b :: c :: d :: r => some (a + b * 256 + c * 65536 + d * 16777216, r)
   | _ => none
 
-/-- `offset_from16` -/
-def offsetFrom16 (o : Nat) : Nat := if o = noEntry16 then noEntry16 else o * 4
+/-! The offset conversions of the loop (`offset_from16`, `off * 4` for sparse entries, the two
+    NO_ENTRY tests) are not written here: they are the expressions translated from the source by
+    gen/arscconsts.py (`Gen.ArscConsts.offsetFrom16 / sparseOffset / dense16Offset / dense16Skip /
+    plainSkip`), pinned by `C28.sparse_offset_spec`, `offset16_spec`, `plain_skip_spec`. -/
 
 /-- the loop `for i in range(entryCount)` without FLAG_SPARSE / FLAG_OFFSET16:
     32-bit offsets, `NO_ENTRY_32` skipped; yields `(offset, entry index)`. -/
@@ -43,7 +45,7 @@ def entriesPlain : Nat → Nat → List Nat → Option (List (Nat × Nat) × Lis
     | some (off, r) =>
       match entriesPlain n (i + 1) r with
       | none => none
-      | some (es, r') => some (if off = noEntry32 then es else (off, i) :: es, r')
+      | some (es, r') => some (if plainSkip off then es else (off, i) :: es, r')
 
 /-- FLAG_OFFSET16: 16-bit offsets in units of 4 bytes, `0xFFFF` skipped -/
 def entriesOffset16 : Nat → Nat → List Nat → Option (List (Nat × Nat) × List Nat)
@@ -55,7 +57,7 @@ def entriesOffset16 : Nat → Nat → List Nat → Option (List (Nat × Nat) × 
       match entriesOffset16 n (i + 1) r with
       | none => none
       | some (es, r') =>
-        some (if offsetFrom16 o = noEntry16 then es else (offsetFrom16 o, i) :: es, r')
+        some (if dense16Skip (dense16Offset o) then es else (dense16Offset o, i) :: es, r')
 
 /-- FLAG_SPARSE: `(idx, offset/4)` pairs of 16 bits -/
 def entriesSparse : Nat → List Nat → Option (List (Nat × Nat) × List Nat)
@@ -69,7 +71,7 @@ def entriesSparse : Nat → List Nat → Option (List (Nat × Nat) × List Nat)
       | some (off, r2) =>
         match entriesSparse n r2 with
         | none => none
-        | some (es, r') => some ((off * 4, idx) :: es, r')
+        | some (es, r') => some ((sparseOffset off, idx) :: es, r')
 
 /-- the entry-offset array of a type chunk, by its flags -/
 def entryArray (flags count : Nat) (bs : List Nat) : Option (List (Nat × Nat) × List Nat) :=
